@@ -311,7 +311,19 @@ def replay_path(prop, name):
     return os.path.join(d, safe + '.json')
 
 
+def _cap(x, depth=0):
+    """ replay files stay small whatever the code under test returned """
+    if isinstance(x, str):
+        return x if len(x) <= 2000 else x[:1000] + '...<%d chars>...' % len(x) + x[-200:]
+    if isinstance(x, dict):
+        return {k: _cap(v, depth + 1) for k, v in x.items()}
+    if isinstance(x, (list, tuple)):
+        return [_cap(v, depth + 1) for v in list(x)[:200]]
+    return x
+
+
 def write_replay(prop, name, payload):
+    payload = _cap(payload)
     p = replay_path(prop, name)
     with open(p, 'w') as f:
         json.dump(payload, f, indent=1, default=repr)
